@@ -89,12 +89,20 @@ Section VecP.
       destruct (IH Hin Hf) as (i & y & Hp & Hn & Hy). rewrite Hp. exists (S i), y. auto.
   Qed.
 
-  Lemma max_by_key_from_in (key : A -> nat) l b : In (max_by_key_from key b l) (b :: l).
+  Lemma max_by_key_from_in (key : A -> nat) l kb b : In (max_by_key_from key kb b l) (b :: l).
   Proof.
-    revert b; induction l as [|y l IH]; intros b; cbn [max_by_key_from]; [left; reflexivity|].
-    destruct (IH (if key y <? key b then b else y)) as [H|H]; [|right; right; exact H].
-    rewrite <- H. destruct (key y <? key b); [left|right; left]; reflexivity.
+    revert kb b; induction l as [|y l IH]; intros kb b; cbn [max_by_key_from]; [left; reflexivity|].
+    cbv zeta. destruct (key y <? kb).
+    - destruct (IH kb b) as [H|H]; [left; exact H|right; right; exact H].
+    - right. apply IH.
   Qed.
+
+  Lemma nth_error_len_app (a b : list A) x : nth_error (a ++ x :: b) (length a) = Some x.
+  Proof. induction a; cbn; auto. Qed.
+  Lemma firstn_len_app (a b : list A) : firstn (length a) (a ++ b) = a.
+  Proof. induction a; cbn; [destruct b; reflexivity|f_equal; auto]. Qed.
+  Lemma skipn_S_len_app (a b : list A) x : skipn (S (length a)) (a ++ x :: b) = b.
+  Proof. induction a; cbn; auto. Qed.
 
   Lemma max_by_key_in (key : A -> nat) l x : max_by_key key l = Some x -> In x l.
   Proof.
